@@ -6,7 +6,7 @@ if [ -n "$(git -C /repo status --porcelain)" ]; then echo "/repo is not clean"; 
 git -C /repo apply /verif/seeded/$N/patch.diff || { echo "patch does not apply"; exit 2; }
 for P in "$@"; do
   echo "== seeded $N vs $P"
-  /verif/bin/gowp check -property $P -tier quick 2>&1 | grep -v "^KNOWN-FINDING" | tail -6
+  GOWP_EVIDENCE=/var/tmp/gowp_seeded_evidence /verif/bin/gowp check -property $P -tier quick 2>&1 | grep -v "^KNOWN-FINDING" | tail -6
   echo "rc=${PIPESTATUS[0]}"
 done
 git -C /repo checkout -- . ; git -C /repo status --porcelain
